@@ -638,3 +638,5 @@ H("streams_sendstream_reset_native", ["C05"], "replay-only", "connection::stream
 H("sendbuf_poll_transmit_retransmit_native", ["C01"], "replay-only", "connection::send_buffer::poll_transmit_native",
   [("offset", "u64"), ("unsent", "u64"), ("max_len", "usize"), ("has_range", "bool"), ("lo", "u64"), ("hi", "u64")], 4, [],
   ["SendBuffer::poll_transmit"], "native replay body of E2 query e2_sendbuf_poll_transmit")
+H("endpoint_stateless_reset_native", ["C03", "C07"], "replay-only", "endpoint::stateless_reset_native",
+  [("inciting_len", "u16")], 4, [], ["Endpoint::stateless_reset"], "native replay body of E2 query e2_stateless_reset")
